@@ -198,6 +198,21 @@ def overlap_enums(pid, derives=('EnumString',), feats=('parse',)):
     return out
 
 
+def shadowed_by_disabled(pid, derives, feats):
+    """a disabled variant in front of / behind an enabled variant that is SPELLED like the disabled one's identifier"""
+    out = []
+    for j, (style, first) in enumerate([(None, True), ('kebab-case', True), (None, False), ('snake_case', False)]):
+        e = ESpec(id='%ssd%d' % (pid.lower(), j), name='En%sSd%d' % (pid, j), style=style, derives=list(derives), feats=list(feats))
+        dis_name = {'kebab-case': 'old-name', 'snake_case': 'old_name'}.get(style, 'OldName')
+        d = VSpec(ident='OldName', dis=True)
+        en = VSpec(ident='Renamed', ser=[dis_name] if j % 2 == 0 else [], ts=None if j % 2 == 0 else dis_name)
+        e.variants = ([d, en] if first else [en, d]) + [VSpec(ident='Plain')]
+        e.extra['shape'] = 'enabled variant spelled like a disabled variant (style=%s, disabled first=%s)' % (style, first)
+        e.extra['no_noise'] = True
+        out.append(e)
+    return out
+
+
 OVERLAP_INPUTS = ['m', 'M', 'mega', 'MEGA', 'kib', 'KIB', 'Kib', 'kiB', 'other', 'Other', 'OTHER', '']
 
 
